@@ -29,7 +29,7 @@ LEAN_MODULES = ["Gv.Props.C09"]
 REQUIRED_THEOREMS = ["Gv.Props.C09." + n for n in [
     "sw_valid", "sw_align_valid", "gapLen_bounds", "fill_best_in_range", "gap_not_in_index_maps",
     "index_maps_in_range", "sw_rows_denote_local_alignment", "enum_complete", "enum_optimal",
-    "gotoh_upper_bound", "gotoh_attained", "gotoh_eq_enum", "sw_optimal_partial"]]
+    "gotoh_upper_bound", "gotoh_attained", "gotoh_eq_enum", "sw_score_is_optimum", "sw_optimal_partial"]]
 PARTIAL = ["sw_optimal is open: sw_optimal_partial assumes `reported score = Gotoh optimum of the specification` "
            "(missing: invariant that fillMatrix_SW's running maxima compute the Gotoh recurrences) and does not show that the "
            "RETURNED rows attain the reported score (missing: trace/matrix consistency of the fill); both are checked by the "
